@@ -693,7 +693,10 @@ def parse_def(
     # add OP_DEF to code
     code.append(opcodes_inverse['OP_DEF'][0].to_bytes(1, 'big'))
 
-    while index <= search_idx:
+    # the body ends at the first } or END_DEF that is not part of a comment
+    # or of a nested block (search_idx may point into a comment)
+    terminated = False
+    while index < len(symbols):
         current_symbol = symbols[index]
         # ignore comments (symbols between matching #, ', or ")
         if current_symbol in ('"', "'", '#'):
@@ -711,11 +714,13 @@ def parse_def(
             f'cannot use OP_DEF within OP_DEF body - symbol {index}')
         if current_symbol in ('}', 'END_DEF'):
             index += 1
+            terminated = True
             break
         else:
             advance, parts = parse_next(current_symbol, symbols, symbol_index, index, macros)
             index += advance
             def_code += b''.join(parts)
+    yert(terminated, f'unterminated OP_DEF at symbol {symbol_index}')
 
     # add def handle to code
     code.append(name.to_bytes(1, 'big'))
